@@ -80,12 +80,14 @@ def gen_config(case, thr_cls):
     flags['exclude_percentile'] = excl
     fs = [(3, 3), (3, 3), (1, 1), (3, 5), (5, 3), (5, 5)][int(rng.integers(0, 6))]
     interp = 'zoom' if rng.random() < 0.5 else 'idw'
-    dtype = 'f8'
-    r = rng.random()
-    if r < 0.12:
-        dtype = 'f4'
-    elif r < 0.2:
-        dtype = 'i4'
+    dk = AX.dtype_kind(case, 'bkg_data', p_plain=0.6)
+    dtype = dk.kind
+    mk = AX.mask_kind(case, 'bkg')
+    if mk.kind in ('all_false',):
+        mask = np.zeros((ny, nx), bool)
+        flags['mask'] = 'all_false'
+    fs_aniso = fs[0] != fs[1]
+    case.note('axis2_anisotropy_bkg:' + ('box_' if by != bx else '') + ('filter' if fs_aniso else '') or 'none')
     unit = [u.Jy, u.mJy, u.electron / u.s][int(rng.integers(0, 3))] if rng.random() < 0.25 else None
     sc = int(rng.integers(0, 3))
     est = int(rng.integers(0, 3))
@@ -106,12 +108,7 @@ def gen_config(case, thr_cls):
         return by if by == bx else (by, bx)
 
     def build(filter_threshold, filter_size=fs):
-        d = data.copy()
-        if dtype == 'f4':
-            d = d.astype(np.float32)
-        elif dtype == 'i4':
-            d = np.nan_to_num(d / mag, nan=10.0).round().astype(np.int32)
-        d = lay_d(d)
+        d = lay_d(dk(data.copy(), mag))
         if unit is not None:
             d = d * unit
         from photutils.background import Background2D
